@@ -7,7 +7,6 @@ package livecheck
 
 import (
 	"fmt"
-	"sort"
 	"strings"
 
 	"github.com/blugelabs/bluge"
@@ -15,6 +14,7 @@ import (
 	"github.com/blugelabs/bluge/verifmc"
 	"github.com/blugelabs/bluge/verifmc/msync"
 
+	"verif/crashcheck"
 	"verif/crashfs"
 	"verif/explore"
 	"verif/harness"
@@ -289,7 +289,7 @@ func Run(name string, sc Scenario, or Oracle, opts verifmc.Options) (*verifmc.Sc
 			res.Failure = "the directory lock is still held after the writer was closed"
 			return s, res
 		}
-		if f := RetentionInvariant(dir.Trace, retain); f != "" {
+		if f := crashcheck.RetentionInvariant(dir.Trace, retain); f != "" {
 			res.Failure = f
 			return s, res
 		}
@@ -316,69 +316,6 @@ func min(a, b int) int {
 		return a
 	}
 	return b
-}
-
-// RetentionInvariant walks the trace and checks, at every operation boundary
-// once n snapshots have been committed, that at least n snapshot files are
-// loadable (decodable, every segment file they name present).
-func RetentionInvariant(trace []crashfs.Event, n int) string {
-	files := map[string][]byte{}
-	commits := 0
-	check := func(i int, e crashfs.Event) string {
-		if commits < n {
-			return ""
-		}
-		loadable := 0
-		var why []string
-		for name, b := range files {
-			if !strings.HasSuffix(name, ".snp") || len(b) < 4 {
-				continue
-			}
-			segs, _, err := index.VerifDecodeSnapshot(b[:len(b)-4])
-			if err != nil {
-				why = append(why, name+": "+err.Error())
-				continue
-			}
-			ok := true
-			for _, sg := range segs {
-				if _, have := files[crashfs.FileName(index.ItemKindSegment, sg.ID)]; !have {
-					ok = false
-					why = append(why, fmt.Sprintf("%s needs missing segment %x", name, sg.ID))
-				}
-			}
-			if ok {
-				loadable++
-			}
-		}
-		if loadable < n {
-			sort.Strings(why)
-			return fmt.Sprintf("after storage event %d (%s %s): only %d snapshot(s) loadable with all their segment files, retention is %d (%s)", i, e.Kind, e.Name, loadable, n, strings.Join(why, "; "))
-		}
-		return ""
-	}
-	for i, e := range trace {
-		switch e.Kind {
-		case "persist":
-			if e.Err == "" {
-				files[e.Name] = e.Data
-				if strings.HasSuffix(e.Name, ".snp") {
-					commits++
-				}
-			} else if e.Err != "locked" {
-				delete(files, e.Name)
-			}
-		case "remove":
-			if e.Err == "" {
-				delete(files, e.Name)
-			}
-		default:
-			continue
-		}
-		if f := check(i, e); f != "" {
-			return f
-		}
-	}
-	return ""
 }
 
 // windows records whether a batch was called or returned inside a merge
